@@ -281,12 +281,12 @@ Qed.
 
 (** C02_table_roundtrip: the reader of the classic table inverts the printer — every end-of-line form,
     every subsection split, any white-space between the keywords and the subsection headers *)
-Theorem table_roundtrip : forall L secs rest p,
-  layout_ok L secs -> token_end rest ->
+Theorem table_roundtrip_b : forall L secs rest p,
+  layout_ok L secs -> boundary rest ->
   read_xref_table_at (mkLx p (print_table_spec L secs ++ rest))
   = Ok (secs, mkLx (p + lenN (print_table_spec L secs)) rest).
 Proof.
-  intros L secs rest p (G1 & N1 & Gend & Hall) Hb. apply token_end_boundary in Hb.
+  intros L secs rest p (G1 & N1 & Gend & Hall) Hb.
   unfold read_xref_table_at, print_table_spec.
   assert (Hs1 : sep (l_first L)) by (apply gap_sep; exact G1).
   replace ((kw_xref ++ l_first L ++ print_subs (l_subs L) secs ++ l_end L ++ kw_trailer) ++ rest)
@@ -305,3 +305,9 @@ Proof.
       unfold print_sub. rewrite !app_length. destruct (dec_of_N (first_id s)); [contradiction|cbn [length]; lia]. }
     rewrite !app_length. lia.
 Qed.
+
+Theorem table_roundtrip : forall L secs rest p,
+  layout_ok L secs -> token_end rest ->
+  read_xref_table_at (mkLx p (print_table_spec L secs ++ rest))
+  = Ok (secs, mkLx (p + lenN (print_table_spec L secs)) rest).
+Proof. intros L secs rest p HL Hb. apply table_roundtrip_b; [exact HL|apply token_end_boundary; exact Hb]. Qed.
